@@ -582,6 +582,16 @@ def g_pop_expr(ctx, F, body, site):
 
 @guard("emplace-var-entry")
 def g_emplace(ctx, F, body, site):
+    if body.kind == "closure":
+        # the unwrap sits in a closure mapped over the result of emplace: the facts are about the enclosing function
+        use = _closure_use(F, body)
+        if not use or use[2]["callee"].get("name") not in ("map", "and_then", "map_or", "map_or_else"):
+            return False, "the closure is not mapped over a result"
+        parent, cb, ct = use
+        emp_p = [bi for bi, t in parent.calls() if t["callee"].get("name") == "emplace"]
+        if not emp_p or not all(flows_into(parent, bi, ct["args"][0]) for bi in emp_p):
+            return False, "the closure is not mapped over the result of emplace"
+        body = parent
     conv = [(bi, t) for bi, t in body.calls() if is_callee(t, "std::convert::Into::into") and "SymTableEntry" in (t["callee"].get("inst") or "")]
     emp = [(bi, t) for bi, t in body.calls() if t["callee"].get("name") == "emplace"]
     if len(conv) != 1 or not emp:
@@ -1037,7 +1047,10 @@ def g_radix(ctx, F, body, site):
         if d[0] == "call" and is_callee(body.term(d[1]), "std::option::Option::<T>::filter"):
             filt = body.term(d[1])
     if filt is None:
-        return False, "the radix handed to from_str_radix is not filtered by a range test"
+        # form B: explicit comparisons of the same value against constants, the call confined to the edges on which they held
+        lo, hi = _interval_at(body, site["bb"], t["args"][1])
+        ok = lo is not None and hi is not None and lo >= 2 and hi <= 36
+        return ok, "" if ok else "the radix handed to from_str_radix is not filtered by a range test (known bounds at the call: %s..=%s)" % (lo, hi)
     cl = body.local_ty(op_local(filt["args"][1])).peel_refs()
     cf = F.fn(cl.d.get("closure", "")) if cl.kind() == "closure" else None
     if cf is None:
@@ -1054,6 +1067,62 @@ def g_radix(ctx, F, body, site):
                             hi = t2["args"][1].get("const", {}).get("int")
                             ok = lo is not None and hi is not None and int(lo) >= 2 and int(hi) <= 36
     return ok, "" if ok else "the range test is not a sub-range of 2..=36"
+
+
+def _interval_at(body, bb, operand):
+    """(lo, hi) bounds known for an integer operand at block bb from comparisons of the same value (same origins, looked at through
+    integer casts) with constants whose outcome edge dominates bb; None where unknown"""
+    def roots(o):
+        return frozenset((d, p) for d, p in origins(body, o) if d[0] != "const")
+
+    def const_of(o):
+        c = o.get("const")
+        if c is not None and c.get("int") is not None:
+            return int(c["int"])
+        vs = [d[1] for d, p in origins(body, o) if d[0] == "const"]
+        others = [d for d, p in origins(body, o) if d[0] != "const"]
+        if len(vs) == 1 and not others:
+            try:
+                return int(str(vs[0]).split("_")[0])
+            except ValueError:
+                return None
+        return None
+    want = roots(operand)
+    if not want:
+        return None, None
+    lo = hi = None
+    for bi, si, s in body.assigns():
+        op = s["rv"].get("bin")
+        if op not in ("lt", "gt", "le", "ge"):
+            continue
+        a, b = s["rv"]["a"], s["rv"]["b"]
+        if roots(a) == want and const_of(b) is not None:
+            k, flip = const_of(b), False
+        elif roots(b) == want and const_of(a) is not None:
+            k, flip = const_of(a), True
+        else:
+            continue
+        if flip:
+            op = {"lt": "gt", "gt": "lt", "le": "ge", "ge": "le"}[op]
+        sw = body.term(bi)
+        if sw["k"] != "switch" or op_local(sw["on"]) != s["pl"]["l"]:
+            continue
+        zero = [tg for v, tg in sw["targets"] if v == "0"]
+        if not zero:
+            continue
+        for outcome, tg in ((False, zero[0]), (True, sw["otherwise"])):
+            if not (tg == bb or _dominated_by_edge(body, bb, bi, tg)):
+                continue
+            # x op k is `outcome`
+            if (op, outcome) == ("lt", False) or (op, outcome) == ("ge", True):
+                lo = k if lo is None else max(lo, k)
+            elif (op, outcome) == ("lt", True) or (op, outcome) == ("ge", False):
+                hi = k - 1 if hi is None else min(hi, k - 1)
+            elif (op, outcome) == ("gt", False) or (op, outcome) == ("le", True):
+                hi = k if hi is None else min(hi, k)
+            else:
+                lo = k + 1 if lo is None else max(lo, k + 1)
+    return lo, hi
 
 
 @guard("to-digit-radix-const")
